@@ -32,6 +32,8 @@ pub enum Mode {
     /// a surrogate pair), any text: no panic, termination within the step budget, ranges inside
     /// the slice and in increasing order.
     Robust,
+    /// The same monitor as C06's u16 clause (reported as C06; run under the sanitizers too).
+    RobustMem,
 }
 
 const FUEL_ITER: u64 = 3_000_000;
@@ -321,12 +323,17 @@ fn case_steps(p: &Prepared, text: &[u16], start: usize, ucs2: bool, rep: &mut Re
     V::Held(pat.features.quantifiers > 0 && st.steps > 10)
 }
 
-fn case_robust(p: &Prepared, text: &[u16], start: usize, ucs2: bool, rep: &mut Report) -> V {
+/// Set in bounded mode (slow tools): no reference model, small step budget.
+static SLOW_TOOL: std::sync::atomic::AtomicBool = std::sync::atomic::AtomicBool::new(false);
+
+fn case_robust(p: &Prepared, text: &[u16], start: usize, ucs2: bool, rep: &mut Report, property: &'static str) -> V {
+    let slow = SLOW_TOOL.load(std::sync::atomic::Ordering::Relaxed);
     let name = if ucs2 { "find_from_ucs2" } else { "find_from_utf16" };
     let d = decode(text, !ucs2);
     let split = start <= text.len() && !d.off.contains(&start);
     // A step budget is a verdict only when the reference model says the search is cheap.
     let cheap = match &p.pat {
+        _ if slow => false,
         Some(pat) if pat.features.prop_escapes == 0 => {
             let ci = d.off.iter().position(|&o| o >= start).unwrap_or(d.cps.len());
             let (r, st) = esref::find_all(pat, &d.cps, ci, RefLimits { max_steps: REF_STEPS, max_depth: 20_000 }, engine::MAX_MATCHES);
@@ -334,7 +341,7 @@ fn case_robust(p: &Prepared, text: &[u16], start: usize, ucs2: bool, rep: &mut R
         }
         _ => false,
     };
-    let r = engine::guarded(FUEL_STEPS, || {
+    let r = engine::guarded(if slow { 6_000 } else { FUEL_STEPS }, || {
         let mut out = Vec::new();
         if ucs2 {
             for m in p.re.find_from_ucs2(text, start).take(engine::MAX_MATCHES) {
@@ -354,11 +361,11 @@ fn case_robust(p: &Prepared, text: &[u16], start: usize, ucs2: bool, rep: &mut R
                 let ok = m.range.0 <= m.range.1 && m.range.1 <= text.len() && m.caps.iter().flatten().all(|c| c.0 <= c.1 && c.1 <= text.len()) && (j == 0 || m.range.0 >= prev_end);
                 prev_end = m.range.1;
                 if !ok {
-                    return V::Violated { property: "C14", what: format!("{}: a range reported on arbitrary u16 input is outside the slice or out of order", name), observed: engine::show_matches(&ms), expected: "0 <= start <= end <= len, increasing".into() };
+                    return V::Violated { property, what: format!("{}: a range reported on arbitrary u16 input is outside the slice or out of order", name), observed: engine::show_matches(&ms), expected: "0 <= start <= end <= len, increasing".into() };
                 }
             }
             if start > text.len() && !ms.is_empty() {
-                return V::Violated { property: "C14", what: format!("{}: a start beyond the end yielded matches", name), observed: engine::show_matches(&ms), expected: "nothing".into() };
+                return V::Violated { property, what: format!("{}: a start beyond the end yielded matches", name), observed: engine::show_matches(&ms), expected: "nothing".into() };
             }
             if split {
                 rep.inc("robust_cases_with_start_inside_a_pair");
@@ -367,12 +374,12 @@ fn case_robust(p: &Prepared, text: &[u16], start: usize, ucs2: bool, rep: &mut R
         }
         Guarded::Fuel => {
             if cheap {
-                V::Violated { property: "C14", what: format!("{}: search on arbitrary u16 input did not terminate within the step budget", name), observed: format!("more than {} engine steps", FUEL_STEPS), expected: format!("terminates (the reference search over the decoded text needs fewer than {} steps)", REF_STEPS) }
+                V::Violated { property, what: format!("{}: search on arbitrary u16 input did not terminate within the step budget", name), observed: format!("more than {} engine steps", FUEL_STEPS), expected: format!("terminates (the reference search over the decoded text needs fewer than {} steps)", REF_STEPS) }
             } else {
                 V::Inconclusive("fuel")
             }
         }
-        Guarded::Panic(m) => V::Violated { property: "C14", what: format!("{} panicked on arbitrary u16 input (panic or failed debug assertion of the crate's own invariants)", name), observed: m, expected: "no panic".into() },
+        Guarded::Panic(m) => V::Violated { property, what: format!("{} panicked on arbitrary u16 input (panic or failed debug assertion of the crate's own invariants)", name), observed: m, expected: "no panic".into() },
     }
 }
 
@@ -471,7 +478,8 @@ fn run_case(mode: Mode, p: &Prepared, text: &[u16], start: usize, ucs2: bool, re
     match mode {
         Mode::Iter => case_iter(p, text, start, ucs2, rep),
         Mode::Steps => case_steps(p, text, start, ucs2, rep),
-        Mode::Robust => case_robust(p, text, start, ucs2, rep),
+        Mode::Robust => case_robust(p, text, start, ucs2, rep, "C14"),
+        Mode::RobustMem => case_robust(p, text, start, ucs2, rep, "C06"),
     }
 }
 
@@ -480,6 +488,7 @@ pub fn run(cfg: &Cfg, rep: &mut Report, mode: Mode) {
         Mode::Iter => "c09u16",
         Mode::Steps => "c05u16",
         Mode::Robust => "c14u16",
+        Mode::RobustMem => "c06u16",
     };
     if let Some(r) = &cfg.replay {
         let case = r.get("case").unwrap_or(r);
@@ -514,9 +523,26 @@ pub fn run(cfg: &Cfg, rep: &mut Report, mode: Mode) {
     if mode == Mode::Iter {
         fixed.extend(super::diff::first_position_shapes());
     }
-    let spec = StreamSpec { n_struct: cfg.scaled(if cfg.quick() { 4_000 } else { 150_000 }), enum_nodes: if cfg.quick() { 2 } else { 3 }, enum_flags: vec![fl(""), fl("su")], tweak, fixed, templates: false };
+    let bounded = cfg.opt("max_cases").is_some();
+    let spec = StreamSpec { n_struct: if bounded { cfg.opt_usize("max_cases", 100) } else { cfg.scaled(if cfg.quick() { 4_000 } else { 150_000 }) }, enum_nodes: if bounded { 1 } else if cfg.quick() { 2 } else { 3 }, enum_flags: vec![fl(""), fl("su")], tweak, fixed, templates: false };
     let n_random = if cfg.quick() { 8 } else { 24 };
+    // under slow tools the supervisor bounds the cases per process and gives a wall-clock budget
+    // (which only limits how much is explored)
+    let max_cases = cfg.opt_usize("max_cases", usize::MAX);
+    let budget_s = cfg.opt_usize("budget_s", usize::MAX) as u64;
+    let t0 = std::time::Instant::now();
+    let mut cases = 0usize;
+    SLOW_TOOL.store(bounded, std::sync::atomic::Ordering::Relaxed);
     for_each_program(cfg, rep, &spec, |p, rep, rng| {
+        if cases >= max_cases || t0.elapsed().as_secs() > budget_s {
+            return;
+        }
+        if bounded && (p.flags.i || p.pattern_lossy().contains("\\p{") || p.pattern_lossy().contains("\\P{")) {
+            // closing classes under i and building property sets take minutes under Miri and
+            // touch none of the position-stepping code this stage is about
+            rep.inc("skipped.slow_to_compile_under_the_tool");
+            return;
+        }
         let prep = match prepare(&p.pattern, p.flags) {
             Ok(x) => x,
             Err(why) => {
@@ -526,13 +552,21 @@ pub fn run(cfg: &Cfg, rep: &mut Report, mode: Mode) {
         };
         #[cfg(feature = "hooks")]
         engine::hooks::reset();
-        let ts = texts(p, rng, n_random);
+        let mut ts = texts(p, rng, n_random);
+        let program_cap = if bounded { cases + 12 } else { usize::MAX };
+        if bounded {
+            rng.shuffle(&mut ts);
+        }
         let mut any = false;
         'prog: for text in &ts {
             let lone = has_lone(text);
             for start in 0..=text.len() + 1 {
                 for ucs2 in [false, true] {
                     let h = fnv64(format!("{}|{:?}|{}|{}", p.hash(), text, start, ucs2).as_bytes());
+                    if cases >= max_cases || cases >= program_cap {
+                        break 'prog;
+                    }
+                    cases += 1;
                     match run_case(mode, &prep, text, start, ucs2, rep) {
                         V::Held(nt) => {
                             rep.eval(h, nt);
